@@ -48,26 +48,29 @@ func (b *rBroker) clearSession() {
 }
 
 type scenario struct {
-	mu          sync.Mutex
-	cond        *sync.Cond
-	faults      []string
-	broker      *rBroker
-	conns       []*sConn
-	wire        []wireEntry
-	seq         int
-	dialReq     int // DialContext calls so far
-	dialCh      chan dialResult
-	onErr       []string // "r" / "t" (plain errors are not logged)
-	onErrAt     []time.Time
-	handled     []string
-	cur         int // connection whose CONNACK was accepted last (-1: none)
-	msgConn     map[int]int
-	states      []string
-	dialAt      []time.Time
-	endAt       map[int]time.Time
-	answerPings bool        // the broker answers PINGREQ (keep-alive scenarios)
-	failAt      []time.Time // the failures that start a back-off wait, in order (dial failure, connection end)
-	used        []string    // faults applied so far
+	mu            sync.Mutex
+	cond          *sync.Cond
+	faults        []string
+	broker        *rBroker
+	conns         []*sConn
+	wire          []wireEntry
+	seq           int
+	dialReq       int // DialContext calls so far
+	dialCh        chan dialResult
+	onErr         []string // "r" / "t" (plain errors are not logged)
+	onErrAt       []time.Time
+	handled       []string
+	cur           int // connection whose CONNACK was accepted last (-1: none)
+	msgConn       map[int]int
+	states        []string
+	cbMismatch    []string // Closed callbacks whose error differs from Err()
+	refuseNext    bool     // the next dialled transport refuses the CONNECT write
+	refuseIDStart uint32   // … and its id counter is set to this value at that moment
+	dialAt        []time.Time
+	endAt         map[int]time.Time
+	answerPings   bool        // the broker answers PINGREQ (keep-alive scenarios)
+	failAt        []time.Time // the failures that start a back-off wait, in order (dial failure, connection end)
+	used          []string    // faults applied so far
 }
 
 func (s *scenario) faultsUsed() []string { return s.used }
@@ -89,6 +92,8 @@ type sConn struct {
 	sessionPresent bool
 	createdAt      time.Time
 	ackAt          time.Time
+	refuseConnect  bool // the write of CONNECT fails (scripted)
+	idStart        uint32
 }
 
 // waitDrained waits until the client's reader goroutine has consumed everything fed so far and
@@ -129,6 +134,7 @@ func (c *sConn) Read(p []byte) (int, error) {
 }
 
 func (c *sConn) Close() error {
+	time.Sleep(scriptedCloseDelay)
 	s := c.sc
 	s.mu.Lock()
 	if !c.closed {
@@ -178,7 +184,23 @@ func (c *sConn) Write(p []byte) (int, error) {
 	}
 	entry := wireEntry{pkt: pkt, conn: c.k, seq: s.seq, at: time.Now()}
 	s.seq++
-	if c.closed {
+	if c.refuseConnect && pkt.Type == 0x10 {
+		// the attempt is logged like any CONNECT; the write fails and the transport is unusable from here on
+		s.wire = append(s.wire, entry)
+		c.cli.VerifSetIDLast(c.idStart) // init() has run; no identifier has been drawn yet
+		c.answered = true
+		c.closed = true
+		if _, ok := s.endAt[c.k]; !ok {
+			s.endAt[c.k] = time.Now()
+		}
+		return 0, errors.New("scripted write failure on CONNECT")
+	}
+	// A connection attempt that has been resolved negatively (CONNACK refused, never sent and timed out, Connect
+	// context cancelled) is about to be closed by the reconnect loop; the task goroutine, released at the same
+	// moment, may reach the transport a few microseconds before or after that Close. Both orders are legal runs of
+	// the library; the scripted transport makes them indistinguishable by refusing writes from the moment the attempt
+	// is resolved (the model: `connectFailed` kills the connection before the released tasks run).
+	if c.closed || (c.answered && !c.accepted && pkt.Type != 0x10) {
 		entry.tag = "!dead"
 		s.wire = append(s.wire, entry)
 		return 0, io.ErrClosedPipe
@@ -314,11 +336,18 @@ func (d *sDialer) DialContext(ctx context.Context) (*mqtt.BaseClient, error) {
 			return nil, errors.New("scripted dial failure")
 		}
 		s.mu.Lock()
-		c := &sConn{sc: s, k: len(s.conns), createdAt: time.Now()}
+		c := &sConn{sc: s, k: len(s.conns), createdAt: time.Now(), refuseConnect: s.refuseNext, idStart: s.refuseIDStart}
+		s.refuseNext = false
 		k := c.k
-		cli := &mqtt.BaseClient{Transport: c, ConnState: func(st mqtt.ConnState, err error) {
+		var cli *mqtt.BaseClient
+		cli = &mqtt.BaseClient{Transport: c, ConnState: func(st mqtt.ConnState, err error) {
+			cur := cli.Err()
 			s.mu.Lock()
 			s.states = append(s.states, fmt.Sprintf("%d:%v:%s", k, st, errClass(err)))
+			if st == mqtt.StateClosed && (err == nil || err != cur) {
+				// C16: Closed is reported "together with the non-nil error that ended it (which Err() also returns)"
+				s.cbMismatch = append(s.cbMismatch, fmt.Sprintf("connection %d: Closed reported with %v, Err() is %v", k, err, cur))
+			}
 			s.cond.Broadcast()
 			s.mu.Unlock()
 		}}
@@ -366,26 +395,26 @@ const (
 )
 
 type retryRun struct {
-	sc        *scenario
-	cli       mqtt.ReconnectClient
-	rc        *mqtt.RetryClient
-	cfg       string
-	evs       []string
-	accepted  []string // app requests for which the API returned nil, in order
-	acceptedT []time.Time
-	rejected  int
-	connRet   string
-	connDone  chan struct{}
-	planMiss  []string
-	idStart   map[int]uint32
-	inboundAt map[int]string // message -> handler registered when it was fed
-	curHandle int
-	released  int // dial gate releases so far
-	discDone  chan error
-	base, max time.Duration // back-off configuration of this run
-	cancelled bool
-	firstAcked bool
-	started    bool
+	sc                        *scenario
+	cli                       mqtt.ReconnectClient
+	rc                        *mqtt.RetryClient
+	cfg                       string
+	evs                       []string
+	accepted                  []string // app requests for which the API returned nil, in order
+	acceptedT                 []time.Time
+	rejected                  int
+	connRet                   string
+	connDone                  chan struct{}
+	planMiss                  []string
+	idStart                   map[int]uint32
+	inboundAt                 map[int]string // message -> handler registered when it was fed
+	curHandle                 int
+	released                  int // dial gate releases so far
+	discDone                  chan error
+	base, max                 time.Duration // back-off configuration of this run
+	cancelled                 bool
+	firstAcked                bool
+	started                   bool
 	startAt, discAt, cancelAt time.Time // zero if the event did not happen (cancelAt: only an effective cancellation)
 }
 
@@ -573,6 +602,23 @@ func runRetryScript(cfg, method, faultStr string, evs []string, plan []planPoint
 				r.acceptedT = append(r.acceptedT, time.Now())
 			} else {
 				r.rejected++
+			}
+		case "dialw":
+			// the dial succeeds, the transport refuses the very first write (CONNECT)
+			if !r.dialPending() {
+				break
+			}
+			sc.mu.Lock()
+			r.idStart[len(sc.conns)] = uint32(atoi(f[1]))
+			sc.refuseNext = true
+			sc.refuseIDStart = uint32(atoi(f[1]))
+			sc.failAt = append(sc.failAt, time.Now())
+			sc.mu.Unlock()
+			r.released++
+			select {
+			case sc.dialCh <- dialResult{ok: true}:
+			case <-time.After(5 * time.Second):
+				r.planMiss = append(r.planMiss, fmt.Sprintf("ev%d(%s):no-dial-request", i, ev))
 			}
 		case "dial+":
 			if !r.dialPending() {
